@@ -10,6 +10,8 @@
 EXTENDS Binning, IOUtils, TLCExt
 VARIABLE l
 TraceLog == ndJsonDeserialize(IOEnv.TRACE_FILE)
+\* an observed value far outside the expected magnitude is rejected without multiplying (32-bit TLC integers)
+SafeClose(m, S, r, tol) == Abs(m) < (Big \div r[2]) /\ Close(m, S, r, tol)
 
 \* ------------------------------------------------------------------- "val"
 \* e.nat: window of native bins = every bin meeting the target plus, where the grid continues
@@ -22,11 +24,11 @@ OkVal(e) ==
     /\ WindowComplete(e)
     /\ IF Overlaps(e.nat, e.tgt)
        THEN /\ e.isnum
-            /\ Close(e.m, e.S, Binned(e.nat, e.tgt, e.f), e.tol)
+            /\ SafeClose(e.m, e.S, Binned(e.nat, e.tgt, e.f), e.tol)
             /\ e.m >= SetMinI(OverlapVals(e.nat, e.tgt, e.f)) * e.S - e.tol           \* bounds
             /\ e.m <= SetMaxI(OverlapVals(e.nat, e.tgt, e.f)) * e.S + e.tol
             /\ RSumSeq([i \in 1..Len(e.nat) |-> NWeight(e.nat, e.tgt, i)]) = Q(1)
-            /\ e.chkerr => Close(e.m2, e.S2, BinnedErr2(e.nat, e.tgt, e.e), e.tol)
+            /\ e.chkerr => SafeClose(e.m2, e.S2, BinnedErr2(e.nat, e.tgt, e.e), e.tol)
        ELSE IF Touches(e.nat, e.tgt) THEN TRUE
        ELSE e.isnum /\ e.m = 0
 
@@ -65,7 +67,7 @@ OkRel(e) ==
 OkHist(e) ==
     LET M == HistMembers(e.tc, e.xs, e.k) IN
     /\ \A i \in 1..Len(e.xs) : ~OnHistEdge(e.tc, e.xs[i])
-    /\ (M # {}) => e.isnum /\ Close(e.m, e.S, HistMean(e.tc, e.xs, e.f, e.k), e.tol)
+    /\ (M # {}) => e.isnum /\ SafeClose(e.m, e.S, HistMean(e.tc, e.xs, e.f, e.k), e.tol)
 
 Ok(e) == CASE e.kind = "val"  -> OkVal(e)
            [] e.kind = "rel"  -> OkRel(e)
